@@ -643,6 +643,9 @@ func (tdsChan *Channel) tryParsePackage() bool {
 			if lastPkg, ok := tdsChan.lastPkgRx.(*DonePackage); !ok || lastPkg.Status != TDS_DONE_FINAL {
 				tdsChan.packageCh <- &DonePackage{Status: TDS_DONE_FINAL}
 			}
+			// The response is complete - its last package must not
+			// decide about the final DonePackage of the next response.
+			tdsChan.lastPkgRx = nil
 		}
 		return false
 	}
